@@ -6,10 +6,13 @@ import Drive.Simd
 import Drive.Policy
 import Drive.Tree
 import Drive.Buffer
+import Drive.BufferM
 import Drive.Alloc
+import Drive.AllocM
 import Drive.Cache
 import Drive.Ring
 import Drive.Node
+import Drive.TreeM
 open Drive
 
 /-- component name -> validator.  A component may serve several streams. -/
@@ -21,10 +24,13 @@ def components : List (String × (IO.FS.Stream → IO Verdict)) :=
    ("policy", Drive.Policy.run),
    ("tree", Drive.Tree.run),
    ("buffer", Drive.Buffer.run),
+   ("bufferm", Drive.BufferM.run),
    ("alloc", Drive.Alloc.run),
+   ("allocm", Drive.AllocM.run),
    ("cache", Drive.Cache.run),
    ("ring", Drive.Ring.run),
-   ("node", Drive.Node.run)]
+   ("node", Drive.Node.run),
+   ("treem", Drive.TreeM.run)]
 
 def main (args : List String) : IO UInt32 := do
   match args with
